@@ -19,14 +19,14 @@ from .asmgen import LABEL, observe_encode
 CFG = "INIT Init\nNEXT Next\nCHECK_DEADLOCK FALSE\n"
 PLACE = 0x1000
 LAWS = ["LawModRM", "LawRex", "LawSign", "LawDisp", "LawTable", "LawDecodeEncode", "LawLength", "LawFields",
-        "LawRegSets", "LawKat"]
+        "LawRegSets", "LawKat", "LawRwKat"]
 
 
 # ---------------------------------------------------------------- idiom M
-def laws(ctx, fams, deep, workers=8):
+def laws(ctx, fams, deep, workers=8, which=None):
     """Model-check X64.tla itself.  A failing law is a defect of the specification: machinery failure."""
     cfg = "CONSTANT Deep = %s\nCONSTANT Fams = {%s}\n" % ("TRUE" if deep else "FALSE", ", ".join('"%s"' % f for f in fams))
-    cfg += CFG + "".join("INVARIANT %s\n" % x for x in LAWS)
+    cfg += CFG + "".join("INVARIANT %s\n" % x for x in (which or LAWS))
     res = ctx.tlc("X64_MC", cfg, label="M: laws of X64.tla on %s" % "/".join(fams), workers=workers)
     for e in res.errors:
         raise tlcmod.MachineryError("a law of X64.tla fails in the specification itself: %s\n%s\n%s" % (
@@ -332,6 +332,8 @@ def enumerate_instances(cls, rng, level):
                     bases = SPECIAL_BASES
                 for bname in bases:
                     for v in vals:
+                        if level < 2 and bname not in (None, "rax") and lo is not None and not lo <= v <= hi:
+                            continue  # quick tier: out-of-range displacements with one base only
                         x = dict(base)
                         x[s.path] = v
                         if bname is not None:
@@ -347,7 +349,7 @@ def enumerate_instances(cls, rng, level):
                 for a in (SYMS if level >= 1 else SYMS[:3]):
                     yield inst(base, "address.%s" % ".".join(s.path), sym=a)
         if level >= 2:
-            for _ in range(16):
+            for _ in range(40):
                 x = dict(base)
                 for s in slots:
                     if s.kind == "r":
@@ -450,7 +452,7 @@ def rw_records(prop, rng, thorough, only_classes=None):
 
 
 # ---------------------------------------------------------------- judgement (TLC)
-def judge(ctx, recs, invariants, label, workers=8):
+def judge(ctx, recs, invariants, label, workers=8, explain=None):
     """Evaluate the records in X64_Eval; returns [(record, clause, verdict record)] for every violated invariant
     (the verdict record = X64_Explain's account of what disagrees)."""
     if not recs:
@@ -459,7 +461,8 @@ def judge(ctx, recs, invariants, label, workers=8):
     slim = [{k: v for k, v in r.items() if k not in drop} for r in recs]
     path = ctx.trace_file(slim)
     cfg = CFG + "".join("INVARIANT %s\n" % inv for inv in invariants)
-    res = ctx.tlc("X64_Eval", cfg, label=label, env={"TRACE_FILE": path}, continue_=True, workers=workers)
+    # (-coverage costs half of the run time; the two actions of X64_Eval are covered by construction: see expect_states)
+    res = ctx.tlc("X64_Eval", cfg, label=label, env={"TRACE_FILE": path}, continue_=True, workers=workers, coverage=False)
     os.unlink(path)
     from . import tlcclean
     tlcclean.clean(res, "X64_Eval", expect_states=len(recs) + 1 + (len(recs) + 15) // 16)
@@ -475,7 +478,9 @@ def judge(ctx, recs, invariants, label, workers=8):
         out.append((idx, e.name))
     if not out:
         return []
-    bad = sorted({idx for idx, _ in out})
+    bad = sorted({idx for idx, _ in out if explain is None or explain(recs[idx - 1])})
+    if not bad:
+        return [(recs[idx - 1], name, {}) for idx, name in out]
     inp = ctx.trace_file([slim[idx - 1] for idx in bad], "explain.json")
     outp = os.path.join(ctx.workdir, "x64explain_out.json")
     ctx.tlc("X64_Explain", CFG, label=label + ": what disagrees in the rejected records", env={"TRACE_FILE": inp, "OUT_FILE": outp},
@@ -490,7 +495,7 @@ def judge(ctx, recs, invariants, label, workers=8):
     if len(expl) != len(bad):
         raise tlcmod.MachineryError("X64_Explain: %d verdicts for %d records" % (len(expl), len(bad)))
     why = dict(zip(bad, expl))
-    return [(recs[idx - 1], name, why[idx]) for idx, name in out]
+    return [(recs[idx - 1], name, why.get(idx, {})) for idx, name in out]
 
 
 REG64 = ["rax", "rcx", "rdx", "rbx", "rsp", "rbp", "rsi", "rdi", "r8", "r9", "r10", "r11", "r12", "r13", "r14", "r15"]
@@ -502,115 +507,181 @@ def fam_names(v):
 
 
 # ---------------------------------------------------------------- spec validation against objdump / llvm-objdump
+# Both sides are brought into the same structure: (mnemonic, [operand]) with operand =
+# ("reg", name) | ("mem", size bits or 0, base, index, scale, disp mod 2^64) | ("imm", value) | ("tgt", address).
 OBJDUMP = "/usr/bin/objdump"
+OBJCOPY = "/usr/bin/objcopy"
 LLVM_OBJDUMP = "/usr/bin/llvm-objdump-14"
-_R64, _R32 = REG64, ["eax", "ecx", "edx", "ebx", "esp", "ebp", "esi", "edi"] + ["r%dd" % n for n in range(8, 16)]
+_R64 = REG64
+_R32 = ["eax", "ecx", "edx", "ebx", "esp", "ebp", "esi", "edi"] + ["r%dd" % n for n in range(8, 16)]
 _R16 = ["ax", "cx", "dx", "bx", "sp", "bp", "si", "di"] + ["r%dw" % n for n in range(8, 16)]
 _R8 = ["al", "cl", "dl", "bl", "spl", "bpl", "sil", "dil"] + ["r%db" % n for n in range(8, 16)]
-_PTR = {0: "", 8: "BYTE PTR ", 16: "WORD PTR ", 32: "DWORD PTR ", 64: "QWORD PTR ", 128: "XMMWORD PTR "}
+_ALLREGS = set(_R64 + _R32 + _R16 + _R8 + ["ah", "ch", "dh", "bh", "rip"] + ["xmm%d" % n for n in range(16)])
+_SIZES = {"byte": 8, "word": 16, "dword": 32, "qword": 64, "xmmword": 128}
+M64 = (1 << 64) - 1
+_MN_ALIASES = {"sal": "shl", "jz": "je", "jnz": "jne", "jc": "jb", "jnc": "jae", "jnae": "jb", "jnb": "jae", "jna": "jbe",
+               "jnbe": "ja", "jnge": "jl", "jnl": "jge", "jng": "jle", "jnle": "jg", "jpe": "jp", "jpo": "jnp",
+               "cltq": "cdqe", "cqto": "cqo", "cltd": "cdq", "cwtl": "cwde", "cwtd": "cwd", "cbtw": "cbw", "movabs": "mov",
+               "retq": "ret", "pause": "nop", "int3": "int3", "pushw": "push", "popw": "pop", "retw": "ret", "leavew": "leave"}
 
 
 def _val(w):
     return sum(b << (8 * j) for j, b in enumerate(w))
 
 
-def _op_text(o, d, addr_next):
-    k = o["k"]
-    if k == "reg":
-        if o["hi"]:
-            return ["ah", "ch", "dh", "bh"][o["n"]]
-        return {64: _R64, 32: _R32, 16: _R16, 8: _R8}[o["sz"]][o["n"]]
-    if k == "xmm":
-        return "xmm%d" % o["n"]
-    if k == "one":
-        return "1"
-    if k == "imm":
-        return "0x%x" % _val(o["w"])
-    if k == "rel":
-        return "0x%x" % ((addr_next + o["d"]) % (1 << 64))
-    if k == "mem":
-        ptr = _PTR[o["sz"]]
-        if d["mn"] == "lea":
-            ptr = ""
-        if o["base"] == 16:
-            body = "rip" + ("+0x%x" % o["disp"] if o["disp"] >= 0 else "-0x%x" % -o["disp"])
-            return "%s[%s]" % (ptr, body)
-        parts = []
-        if o["base"] >= 0:
-            parts.append(_R64[o["base"]])
-        if o["idx"] >= 0:
-            parts.append("%s*%d" % (_R64[o["idx"]], o["sc"]))
-        if not parts:
-            return "%sds:0x%x" % (ptr, o["disp"] % (1 << 64))
-        body = "+".join(parts)
-        if o["disp"] > 0:
-            body += "+0x%x" % o["disp"]
-        elif o["disp"] < 0:
-            body += "-0x%x" % -o["disp"]
-        elif o["base"] >= 0 and o["base"] % 8 == 5 or o["base"] < 0:
-            body += "+0x0"
-        return "%s[%s]" % (ptr, body)
-    return "?"
-
-
-_OBJ_ALIASES = {"sal": "shl", "jz": "je", "jnz": "jne", "jc": "jb", "jnc": "jae", "jnae": "jb", "jnb": "jae", "jna": "jbe",
-                "jnbe": "ja", "jnge": "jl", "jnl": "jge", "jng": "jle", "jnle": "jg", "jpe": "jp", "jpo": "jnp",
-                "cdqe": "cdqe", "cltq": "cdqe", "cqto": "cqo", "cltd": "cdq", "cwtl": "cwde", "cwtd": "cwd", "cbtw": "cbw",
-                "movabs": "mov", "retq": "ret", "ret": "ret", "pause": "nop"}
-
-
-def spec_text(d):
-    """Render an X64.Decode record the way objdump -M intel prints it (None: no verdict / not rendered)."""
-    if d["st"] != "ok":
+def spec_struct(d, addr):
+    """An X64.Decode record (JSON) in the comparison structure (None: no counterpart in a disassembly listing)."""
+    if d["st"] != "ok" or d["mn"] in ("rep", "repne", "movsb", "stosb") or d["rep"]:
         return None
-    mn = d["mn"]
-    if mn in ("rep", "repne"):
+    ops = []
+    for o in d["ops"]:
+        k = o["k"]
+        if k == "reg":
+            ops.append(("reg", ["ah", "ch", "dh", "bh"][o["n"]] if o["hi"] else {64: _R64, 32: _R32, 16: _R16, 8: _R8}[o["sz"]][o["n"]]))
+        elif k == "xmm":
+            ops.append(("reg", "xmm%d" % o["n"]))
+        elif k == "one":
+            ops.append(("imm", 1))
+        elif k == "imm":
+            ops.append(("imm", _val(o["w"]), 8 * len(o["w"])))
+        elif k == "rel":
+            ops.append(("tgt", (addr + d["len"] + o["d"]) & M64))
+        elif k == "mem":
+            base = "rip" if o["base"] == 16 else _R64[o["base"]] if o["base"] >= 0 else ""
+            idx = _R64[o["idx"]] if o["idx"] >= 0 else ""
+            ops.append(("mem", 0 if d["mn"] == "lea" else o["sz"], base, idx, o["sc"] if idx else 1, o["disp"] & M64))
+    return d["mn"], ops
+
+
+def _num(t):
+    t = t.strip().replace(" ", "")
+    try:
+        return int(t, 0) & M64
+    except ValueError:
         return None
-    ops = [_op_text(o, d, d["len"]) for o in d["ops"]]
-    if mn in ("movsb", "stosb"):
-        return None  # objdump prints the implicit string operands
-    pre = ""
-    if d["rep"] == 243:
-        pre = "rep "
-    elif d["rep"] == 242:
-        pre = "repnz "
-    return (pre + mn + (" " + ",".join(ops) if ops else "")).strip()
 
 
-def _norm_ref(text):
-    """Normalise an objdump line: strip comments / symbolic annotations, unify aliases and number spelling."""
-    text = text.split("#")[0].strip()
-    text = re.sub(r"\s*<[^>]*>", "", text)
-    text = re.sub(r"\s+", " ", text)
-    m = re.match(r"^((?:rep[a-z]* |data16 |rex[.a-zA-Z]* )*)([a-z0-9]+)(.*)$", text)
-    if not m:
-        return text
-    pre, mn, rest = m.groups()
-    mn = _OBJ_ALIASES.get(mn, mn)
-    rest = rest.strip().replace(", ", ",")
-    return (pre + mn + (" " + rest if rest else "")).strip()
+def parse_ref(text):
+    """A line of objdump -M intel / llvm-objdump -M intel in the comparison structure (None: not understood)."""
+    text = text.split("#")[0]
+    text = re.sub(r"<[^>]*>", "", text).strip().lower()
+    words = text.split(None, 1)
+    while words and (words[0].startswith("rex") or words[0] in ("data16", "ds", "notrack")):
+        words = words[1].split(None, 1) if len(words) > 1 else []
+    if not words:
+        return None
+    mn = _MN_ALIASES.get(words[0], words[0])
+    if mn == "xchg" and len(words) > 1 and words[1].replace(" ", "") in ("ax,ax", "eax,eax", "rax,rax"):
+        return "nop", []  # 90 with an operand-size prefix
+    ops = []
+    for tok in (_split(words[1]) if len(words) > 1 else []):
+        size = 0
+        m = re.match(r"^(byte|word|dword|qword|xmmword) ptr (.*)$", tok)
+        if m:
+            size, tok = _SIZES[m.group(1)], m.group(2).strip()
+        seg = re.match(r"^[defgs]s:", tok)
+        tok = re.sub(r"^[defgs]s:", "", tok)
+        if tok.startswith("[") and tok.endswith("]") or size or seg:
+            inner = tok[1:-1] if tok.startswith("[") else tok
+            base = idx = ""
+            scale, disp = 1, 0
+            for sign, term in re.findall(r"([+-]?)\s*([^+-]+)", inner):
+                term = term.strip()
+                mm = re.match(r"^([a-z0-9]+)\s*\*\s*([a-z0-9]+)$", term)
+                if mm and ("riz" in mm.groups() or "eiz" in mm.groups()):
+                    continue  # objdump's pseudo register for 'no index'
+                if mm:
+                    a, b = mm.groups()
+                    if a in _ALLREGS:
+                        idx, scale = a, _num(b)
+                    else:
+                        idx, scale = b, _num(a)
+                elif term in ("riz", "eiz"):
+                    continue
+                elif term in _ALLREGS:
+                    if not base:
+                        base = term
+                    else:
+                        idx = term
+                else:
+                    v = _num(term)
+                    if v is None:
+                        return None
+                    disp = (disp + (-v if sign == "-" else v)) & M64
+            ops.append(("mem", size, base, idx, scale, disp))
+        elif tok in _ALLREGS:
+            ops.append(("reg", tok))
+        else:
+            v = _num(tok)
+            if v is None:
+                return None
+            ops.append(("imm", v))
+    return mn, ops
+
+
+def _addr(m):
+    """(base, index, scale, disp); an unscaled index without base is listed as base by some disassemblers."""
+    _, _, base, idx, scale, disp = m
+    if not base and idx and scale == 1:
+        base, idx = idx, ""
+    return base, idx, scale if idx else 1, disp
+
+
+def random_strings(rng, n):
+    """Byte strings shaped like instructions of the modelled subset: optional 66 / F2 / F3, optional REX, an opcode byte
+    (one- or two-byte map), random ModRM / SIB / displacement / immediate bytes.  Inputs of the spec validation only."""
+    out = []
+    for _ in range(n):
+        b = []
+        if rng.random() < 0.25:
+            b.append(rng.choice([0x66, 0xF2, 0xF3]))
+        if rng.random() < 0.6:
+            b.append(0x40 + rng.randrange(16))
+        if rng.random() < 0.3:
+            b += [0x0F, rng.choice([0x05, 0x0B, 0x10, 0x11, 0x1F, 0x28, 0x29, 0x2A, 0x2C, 0x2D, 0x2E, 0x2F, 0x51, 0x57, 0x58, 0x59,
+                                    0x5A, 0x5C, 0x5D, 0x5E, 0x5F, 0x6E, 0x7E, 0xA2, 0xAF, 0xB6, 0xB7, 0xBE, 0xBF, 0xEF]
+                                   + list(range(0x40, 0x50)) + list(range(0x80, 0xA0)))]
+        else:
+            b.append(rng.randrange(256))
+        m = rng.randrange(256)
+        if rng.random() < 0.5:  # favour the special ModRM / SIB cases
+            m = (m & 0xF8) | rng.choice([4, 5])
+        b.append(m)
+        b.append(rng.choice([rng.randrange(256), 0x24, 0x25, 0x2C, 0x65, 0xE5, 0x05]))
+        b += [rng.choice([0, 1, 0x7F, 0x80, 0xFF, rng.randrange(256)]) for _ in range(rng.randrange(0, 10))]
+        out.append(b[:15])
+    return out
 
 
 def _same(mine, ref):
-    """Textual equality up to immediates printed sign-extended / truncated by the reference."""
-    if mine == ref:
-        return True
-    pa, pb = re.split(r"(0x[0-9a-f]+)", mine), re.split(r"(0x[0-9a-f]+)", ref)
-    if len(pa) != len(pb):
+    mn, ops = mine
+    rmn, rops = ref
+    if mn != rmn:
         return False
-    for a, b in zip(pa, pb):
-        if a == b:
-            continue
-        if a.startswith("0x") and b.startswith("0x"):
-            x, y = int(a, 16), int(b, 16)
-            if any((x - y) % (1 << w) == 0 and min(x, y) < (1 << w) for w in (8, 16, 32, 64)):
-                continue
+    if mn in ("rol", "ror", "rcl", "rcr", "shl", "shr", "sar") and len(ops) == 2 and ops[1][:2] == ("imm", 1) and len(rops) == 1:
+        ops = ops[:1]  # the shift-by-one form is listed without the count by llvm
+    if len(ops) != len(rops):
         return False
+    if mn == "xchg" and len(ops) == 2 and not _same(("", ops[:1]), ("", rops[:1])):
+        rops = rops[::-1]  # symmetric: the disassemblers list the operands in either order
+    for a, b in zip(ops, rops):
+        if a[0] == "tgt":
+            if b[0] != "imm" or a[1] != b[1]:
+                return False
+        elif a[0] == "imm":
+            w = a[2] if len(a) > 2 else 64
+            if b[0] != "imm" or (a[1] - b[1]) % (1 << w):
+                return False
+        elif a[0] == "mem":
+            if b[0] != "mem" or _addr(a) != _addr(b) or (a[1] and b[1] and a[1] != b[1]):
+                return False
+        elif a != b:
+            return False
     return True
 
 
-def objdump_crosscheck(ctx, byte_lists, limit=40000):
-    """Compare X64.Decode with GNU objdump (and llvm-objdump) on the same bytes.  NOTE / SPEC-SUSPECT lines only."""
+def objdump_crosscheck(ctx, byte_lists, limit=60000):
+    """Compare X64.Decode with GNU objdump and llvm-objdump on the same bytes.  NOTE / SPEC-SUSPECT lines only."""
     if not os.path.exists(OBJDUMP):
         ctx.note("objdump not installed: specification not cross-checked")
         return None
@@ -619,79 +690,77 @@ def objdump_crosscheck(ctx, byte_lists, limit=40000):
         return None
     inp = ctx.trace_file([list(b) for b in uniq], "dis.json")
     outp = os.path.join(ctx.workdir, "x64dis_out.json")
-    ctx.tlc("X64_Dis", CFG, label="spec validation: X64.Decode table for objdump comparison",
+    ctx.tlc("X64_Dis", CFG, label="spec validation: X64.Decode table for the comparison with objdump / llvm-objdump",
             env={"TRACE_FILE": inp, "OUT_FILE": outp}, workers=2, coverage=False)
     with open(outp) as f:
         decs = json.load(f)
     os.unlink(inp)
     os.unlink(outp)
-    # one padded slot of 16 bytes per string (nop padding) so that every string starts at a known offset
+    # one slot of 16 bytes per string (nop padding): every string starts at a known address
     blob = bytearray()
     for b in uniq:
         blob += bytes(b) + b"\x90" * (16 - len(b))
     binp = os.path.join(ctx.workdir, "x64dis.bin")
+    objp = os.path.join(ctx.workdir, "x64dis.o")
     with open(binp, "wb") as f:
         f.write(blob)
     refs = {}
-    for tool, cmd in (("objdump", [OBJDUMP, "-D", "-b", "binary", "-m", "i386:x86-64", "-M", "intel", "-w", binp]),
-                      ("llvm-objdump", [LLVM_OBJDUMP, "-D", "--triple=x86_64", "-b", "binary", "-M", "intel",
-                                        "--no-show-raw-insn", binp] if os.path.exists(LLVM_OBJDUMP) else None)):
-        if cmd is None:
-            continue
-        try:
-            p = subprocess.run(cmd, capture_output=True, text=True, timeout=600)
-        except Exception as e:
-            ctx.note("%s failed: %s" % (tool, type(e).__name__))
-            continue
+    try:
+        p = subprocess.run([OBJDUMP, "-D", "-b", "binary", "-m", "i386:x86-64", "-M", "intel", "-w", binp],
+                           capture_output=True, text=True, timeout=900)
+        refs["objdump"] = p.stdout
+        if os.path.exists(LLVM_OBJDUMP) and os.path.exists(OBJCOPY):
+            subprocess.run([OBJCOPY, "-I", "binary", "-O", "elf64-x86-64", "-B", "i386:x86-64", "--rename-section",
+                            ".data=.text,alloc,load,contents,code,readonly", binp, objp], check=True, timeout=300)
+            p = subprocess.run([LLVM_OBJDUMP, "-d", "-M", "intel", objp], capture_output=True, text=True, timeout=900)
+            refs["llvm-objdump"] = p.stdout
+    except Exception as e:
+        ctx.note("reference disassembler failed: %s" % type(e).__name__)
+    for f in (binp, objp):
+        if os.path.exists(f):
+            os.unlink(f)
+    summary, suspects = {}, []
+    for tool, listing in refs.items():
         at = {}
-        for ln in p.stdout.splitlines():
-            m = re.match(r"^\s*([0-9a-f]+):\s+(?:(?:[0-9a-f]{2} )+\s*)?(.*)$", ln)
+        for ln in listing.splitlines():
+            m = re.match(r"^\s*([0-9a-f]+):\s+((?:[0-9a-f]{2}[ \t])+)\s*(.*)$", ln)
             if m:
-                at[int(m.group(1), 16)] = m.group(2).strip()
-        refs[tool] = at
-    os.unlink(binp)
-    summary = {}
-    suspects = []
-    for tool, at in refs.items():
-        agree = differ = nover = 0
+                at[int(m.group(1), 16)] = (len(m.group(2).split()), m.group(3).strip())
+        agree = differ = nover = lenient = 0
         for n, (b, d) in enumerate(zip(uniq, decs)):
-            mine = spec_text(d)
-            ref = at.get(16 * n)
-            if mine is None or ref is None:
+            mine = spec_struct(d, 16 * n)
+            got = at.get(16 * n)
+            if d["st"] == "unsupported" or d["mn"] in ("rep", "repne", "movsb", "stosb") or d["rep"]:
+                nover += 1  # outside the decoder's subset / listed with implicit string operands
+                continue
+            if got is None:
                 nover += 1
                 continue
-            # the reference resolves branch targets against the slot address
-            if d["ops"] and d["ops"][-1]["k"] == "rel":
-                mine = spec_text({**d, "ops": d["ops"][:-1]}) + " 0x%x" % ((16 * n + d["len"] + d["ops"][-1]["d"]) % (1 << 64))
-            ref = _norm_ref(ref)
-            if tool == "llvm-objdump":
-                ref = ref.replace("xmmword ptr", "XMMWORD PTR").replace("qword ptr", "QWORD PTR").replace("dword ptr", "DWORD PTR") \
-                    .replace("word ptr", "WORD PTR").replace("byte ptr", "BYTE PTR")
-                ref = re.sub(r"(?<![0-9a-fx])(\d+)(?![0-9a-fx])", lambda m: "0x%x" % int(m.group(1)), ref)
-                ref = ref.replace(" + ", "+").replace(" - ", "-").replace("[0x", "ds:[0x")
-            if _same(_canon(mine), _canon(ref)):
+            rlen, rtext = got
+            bad_ref = rtext.startswith("(bad)") or "<unknown>" in rtext or rtext.startswith(".byte")
+            if mine is None:  # the specification says undefined / truncated
+                if bad_ref or rlen != len(b):
+                    agree += 1
+                else:
+                    differ += 1
+                    suspects.append((tool, bytes(b).hex(), d["st"], rtext))
+                continue
+            if bad_ref and mine[0] == "shl" and tool == "llvm-objdump":
+                lenient += 1  # /6 of the shift group: alias of /4 in the AMD manual, not decoded by llvm
+                continue
+            ref = None if bad_ref else parse_ref(rtext)
+            if ref is not None and rlen == d["len"] and _same(mine, ref):
                 agree += 1
             else:
                 differ += 1
-                suspects.append((tool, bytes(b).hex(), mine, ref))
-        summary[tool] = {"agree": agree, "differ": differ, "no_counterpart": nover}
+                suspects.append((tool, bytes(b).hex(), "%s %s" % mine, rtext))
+        summary[tool] = {"agree": agree, "differ": differ, "no_counterpart": nover, "reference_lacks_amd_alias": lenient}
         ctx.note("spec validation: X64.Decode agrees with %s on %d of %d byte strings (%d without counterpart)" % (
             tool, agree, agree + differ, nover))
     for tool, h, mine, ref in suspects[:20]:
         print("SPEC-SUSPECT property=%s case=bytes:%s X64.Decode=%r %s=%r" % (ctx.prop, h, mine, tool, ref))
     ctx.cov["spec_validation_x86_64"] = summary
     return suspects
-
-
-def _canon(t):
-    """Spelling differences between disassemblers that carry no meaning."""
-    t = t.lower()
-    t = t.replace("ds:[", "[").replace("ds:", "")
-    t = re.sub(r"\[([^\]]*)\]", lambda m: "[" + m.group(1).replace("+0x0", "") + "]", t)
-    t = re.sub(r"\*1(?![0-9])", "", t)
-    t = re.sub(r"(byte|word|dword|qword|xmmword) ptr (0x[0-9a-f]+)", r"\1 ptr [\2]", t)
-    t = re.sub(r",1$", "", t)
-    return t
 
 
 # ---------------------------------------------------------------- the x86_64 parts of the engines C08 / C07
@@ -749,7 +818,11 @@ def c08_part(ctx, thorough):
         ctx.count(r["key"])
     for r in recs[:: max(1, len(recs) // 3)][:3]:
         ctx.sample({"key": r["key"], "bytes": r["out"]["bytes"]})
-    verdicts = judge(ctx, recs, ["SyntaxKnown", "Decodable", "EncodingAgrees", "OperandSizeAgrees"], "E: C08 records (x86_64)")
+    import fnmatch
+    pats = [k["key"] for k in ctx.known]
+    # the account of what disagrees only feeds the message: not needed for the listed findings
+    verdicts = judge(ctx, recs, ["SyntaxKnown", "Decodable", "EncodingAgrees", "OperandSizeAgrees"], "E: C08 records (x86_64)",
+                     explain=lambda r: not any(fnmatch.fnmatchcase(r["key"], p) for p in pats))
     unknown = undec = 0
     for rec, clause, v in verdicts:
         if clause == "SyntaxKnown":
@@ -769,7 +842,7 @@ def c08_part(ctx, thorough):
     if undec:
         ctx.note("x86_64: %d instance(s) whose bytes are outside the decoder's opcode subset: no verdict" % undec)
     if thorough and mine is None:
-        objdump_crosscheck(ctx, [r["out"]["bytes"] for r in recs])
+        objdump_crosscheck(ctx, [r["out"]["bytes"] for r in recs] + random_strings(_rng(ctx, 65), 20000))
     return mine is True
 
 
@@ -796,7 +869,7 @@ def c07_part(ctx, thorough):
     ctx.assume("x86_64: declared registers are read by their printed name; rsp as used by push / pop / call / ret, rip and the "
                "flags are fixed implicit state; a partial write (al, ax, movss xmm, xmm) is not a read of the full register")
     if mine is None:
-        laws(ctx, ["tab", "enc", "kat"], thorough)
+        laws(ctx, ["tab", "enc", "kat"], thorough, which=["LawTable", "LawRegSets", "LawKat", "LawRwKat"] if not thorough else None)
     recs, skipped = rw_records("C07", _rng(ctx, 64), thorough)
     n = sum(skipped.values())
     if n:
